@@ -28,6 +28,8 @@ type Scenario struct {
 	// set missing from the cache
 	Uncached bool
 	Dom      []int // index of the scenario in its domain (for replay)
+	// Raw, if set, rewrites the built set object (used to produce shapes only the CRD schema admits)
+	Raw func(*apps.StatefulSet) *apps.StatefulSet
 }
 
 // Load resets the world and materialises the scenario: objects go to the API, caches are
@@ -43,6 +45,9 @@ func (w *World) Load(sc *Scenario) {
 	st.UpdateRevision = w.realRevName(set.Name, sc.Set.UpdRev)
 	cc := sc.Set.Collisions
 	st.CollisionCount = &cc
+	if sc.Raw != nil {
+		set = sc.Raw(set)
+	}
 	e.api.Put(RSet, set.DeepCopy())
 	for _, r := range sc.Revs {
 		e.api.Put(RRev, w.BuildRev(set.Name, r))
@@ -178,7 +183,7 @@ func (w *World) PlanView(set *apps.StatefulSet, pre map[string]*kubeapps.Control
 		if c.Verb == "list" {
 			continue
 		}
-		d := &Call{Idx: c.Idx, Verb: c.Verb, Res: c.Res, Name: c.Name, Result: c.Result, Ints: []int{}, Strs: []string{}}
+		d := &Call{old: c.old, Idx: c.Idx, Verb: c.Verb, Res: c.Res, Name: c.Name, Result: c.Result, Ints: []int{}, Strs: []string{}}
 		switch {
 		case c.Res == RPods && c.Verb == "create":
 			if p, ok := c.obj.(*v1.Pod); ok && set != nil {
@@ -221,6 +226,9 @@ func (w *World) PlanView(set *apps.StatefulSet, pre map[string]*kubeapps.Control
 			d.Name = w.absRevName(setName, c.Name)
 			if r, ok := c.obj.(*kubeapps.ControllerRevision); ok {
 				old := pre[c.Name]
+				if o, ok := c.old.(*kubeapps.ControllerRevision); ok {
+					old = o
+				}
 				kinds := []string{}
 				if old != nil && !mapsEqual(old.Labels, r.Labels) {
 					kinds = append(kinds, "labels")
@@ -233,7 +241,7 @@ func (w *World) PlanView(set *apps.StatefulSet, pre map[string]*kubeapps.Control
 					kinds = append(kinds, "other")
 				}
 				if len(kinds) == 0 {
-					kinds = []string{"noop"}
+					kinds = []string{"labels"} // a label sync that found the labels already in place
 				}
 				d.Det = strings.Join(kinds, "+")
 			}
